@@ -303,6 +303,7 @@ func (c *Ctx) fnInModule(f *ssa.Function) bool {
 }
 
 func (tr *Tracer) push(st *state, callee *ssa.Function, args, bindings []*Sym, ci ssa.CallInstruction, fromDef bool, site ssa.Instruction) {
+	tr.c.traced(callee)
 	st.emit(&Event{Kind: EvEnter, Instr: site, Callee: callee, Method: fnObj(callee), Args: args})
 	fr := &frame{fn: callee, block: callee.Blocks[0], regs: map[ssa.Value]*Sym{}, loopGen: map[*ssa.BasicBlock]int{}, call: ci, fromDef: fromDef}
 	if fromDef && st.panicking != nil {
